@@ -83,6 +83,7 @@ func verifFunctionSweep(group int) {
 	k := verifrt.Choose("fn", (len(names)+groups-1)/groups)*groups + group
 	verifrt.Assume(k < len(names))
 	name := names[k]
+	verifrt.Tag("fnName", name)
 	fn := t[name]
 	n := verifrt.Choose("nargs", 4)
 	verifrt.Assume(fn.MinArity <= n && n <= fn.MaxArity)
